@@ -227,6 +227,33 @@ def check(ctx):
         if len(p1) != len(p2) or any(a.shape != b.shape or not torch.equal(a, b) for a, b in zip(p1, p2)):
             ctx.fail("parameters after fit differ from an explicit simulate/loss/backward/step loop under the same seed", case,
                      key="fit:reference-loop", detail={"max_abs_diff": max(float((a - b).abs().max()) for a, b in zip(p1, p2)) if len(p1) == len(p2) else None})
+        # a SECOND fit on the same hedger with the optimiser given as a class: a fresh optimiser must be constructed again (no
+        # state - Adam moments, step counts - may survive from the first call)
+        if optkind == "cls" and k >= 1 and st == "ok" and g.chance(0.5):
+            ctx.stats["second_fit"] += 1
+            torch.manual_seed(seed + 2)
+            st_b, hist_b, _ = call_impl(hedger.fit, d, hedge=hedge, n_epochs=k, n_paths=n_paths, n_times=n_times, optimizer=opt,
+                                        init_state=init_state, verbose=False, validation=validation)
+            torch.manual_seed(seed + 2)
+            ref_opt_b = base_opt(list(hedger2.model.parameters()), lr=0.01)
+            for ep in range(k):
+                hedger2.train()
+                ref_opt_b.zero_grad()
+                d2.simulate(n_paths=n_paths, init_state=init_state)
+                loss = crit2(hedger2.compute_portfolio(d2, hedge=hedge2), d2.payoff())
+                loss.backward()
+                ref_opt_b.step()
+                if validation:
+                    hedger2.eval()
+                    with torch.no_grad():
+                        for _ in range(n_times):
+                            d2.simulate(n_paths=n_paths, init_state=init_state)
+            q1 = [p.detach() for p in hedger.parameters()]
+            q2 = [p.detach() for p in hedger2.parameters()]
+            if st_b != "ok" or len(q1) != len(q2) or any(a.shape != b.shape or not torch.equal(a, b) for a, b in zip(q1, q2)):
+                ctx.fail("a second fit() on the same hedger differs from an explicit loop with a freshly constructed optimiser (optimiser state carried over?)",
+                         case | {"second_fit": True}, key="fit:second-fit",
+                         detail={"max_abs_diff": max(float((a - b).abs().max()) for a, b in zip(q1, q2)) if len(q1) == len(q2) and st_b == "ok" else str(hist_b)[:80]})
         the_opt = opt if optkind == "instance" else None
         if the_opt is not None and len(the_opt.grads_at_step) == len(ref_grads):
             for ep, (ga, gb) in enumerate(zip(the_opt.grads_at_step, ref_grads)):
